@@ -77,6 +77,12 @@ func (e *fnEnc) runTop() {
 		for site := range e.contract.HitSites {
 			vc.assume(sEq(e.heap(hitsKey(site)), "0"))
 		}
+		for site := range e.contract.ResSites {
+			// registered up front (unconstrained initial value) so that loop heads havoc it like any other cell
+			if T := e.resultTypeOfSite(site); T != nil {
+				e.heap(resKey(site, e.S().SortOf(T)))
+			}
+		}
 	}
 	// parameters
 	var ptrParams []string
@@ -364,6 +370,11 @@ func (e *fnEnc) block(b *ssa.BasicBlock, entryGuard string) {
 	for _, s := range b.Succs {
 		if e.isBack[[2]*ssa.BasicBlock{b, s}] {
 			e.loopObligations(e.loops[s], b, e.edgeCond(b, s), "inv-preserve")
+			// a break / continue of an INNER loop that lands directly on the head of an enclosing loop is a back
+			// edge of the enclosing loop and an early exit of the inner one
+			if e.top && e.contract != nil && len(e.contract.Exits) > 0 && !e.inlineAssume {
+				e.earlyExitObligations(s, []*ssa.BasicBlock{b}, []string{e.edgeCond(b, s)})
+			}
 		}
 	}
 }
